@@ -28,6 +28,13 @@ DEGENERATE = [
     "float f = 1_0.0_1;", "int x = 0_0;", "int x = 0b0;", "int x = 0B1;", "int x = 0o0;", "int x = 0x0;", "int x = 0XfF;", "bit[2] b = '01';",
     "bit[4] b = \"0_1_0_1\";", "duration d = 10µs;", "duration d = 10 µs;", "qubit q; delay[2µs] q;", "stretch s;", "bool b = true;", "bool b = false;",
     "include \"stdgates.inc\";", "include \"stdgates.inc\";\ninclude \"stdgates.inc\";", "OPENQASM 3;\nqubit q;", "OPENQASM 3.0;\nqubit q;",
+    # a name inside its own declaration, and the declared name used right afterwards in every position
+    "int x = x;", "uint[8] y = y;", "const int n = n;", "const int n = n;\nint[n] x;", "const int n = 4;\nint[n] x;\nbit[n] b;\nqubit[n] q;",
+    "float x = 2.5;\nif (true) { int x = x; }", "const int n = 8;\nif (true) { const int n = 4; if (true) { int[n] x; } }",
+    "int a = 1;\nif (true) { int a = 2; a = 3; }\na = 4;", "if (true) { int b = 2; b = 3; }\nb = 4;", "a = 1;\na = 2;\nint a = 3;\na = 4;",
+    "int a = 1;\nif (true) { a = 2; } else int a = 3;\na = 4;", "qubit q;\nwhile (false) gate g a { U(0, 0, 0) a; }\ng q;",
+    "int i = 3;\nfor int i in [0:i] { i; }", "for int j in {j, 1} { j; }", "def f(int a, qubit q) -> int { int a = 1; return a; }",
+    "gate g(t) p { int t = 2; }", "const int w = 8;\ndef f(int w) -> int[w] { return w; }", "gate x a { }\ngate mine(t) a, b { }\ninclude \"stdgates.inc\";\nqubit q;\nh q;",
     "creg c[1];", "qreg q[1];", "creg c;", "qreg q;", "extern f(int) -> int;", "defcal g q { }", "cal { }", "box { }", "defcalgrammar \"openpulse\";",
 ]
 
